@@ -396,7 +396,89 @@ def run_block(cfg, ctx):
 
 
 def replay(case):
+    if "real" in case:
+        rounds, bad = real_flush_before_exit(30)
+        grid = real_pool_grid()
+        out = []
+        if bad:
+            out.append(({"kind": "model-assumption-violated", "assumption": "flush-before-exit"}, "%d/%d" % (bad, rounds)))
+        out += [({"kind": "real-pool-lost-results", "api": "irun"}, repr(g)) for g in grid if not g["ok"]]
+        return out
     cfg = case["cfg"]
     ex = Execution(cfg, case["schedule"]).go()
     out = [(dict(sig, api=cfg.get("api", "irun")), detail + " | schedule=%s" % describe(ex)) for sig, detail in ex.judge()]
     return out
+
+
+# ---------------------------------------------------------------------------------------------------
+# Binding the virtual primitives to the real library (thorough tier, supplementary - runs in the driver process)
+
+def _real_flush_child(q, k):
+    for i in range(k):
+        q.put(("item", i, "x" * 2000))
+
+
+def real_flush_before_exit(rounds=60):
+    """assumption (b): once a real child process is reported dead, everything it put is readable without waiting"""
+    import multiprocessing as mp
+    import queue as _q
+    ctx = mp.get_context("fork")
+    bad = 0
+    for r in range(rounds):
+        k = 1 + r % 7
+        q = ctx.Queue()
+        p = ctx.Process(target=_real_flush_child, args=(q, k))
+        p.start()
+        while p.exitcode is None:
+            pass
+        got = 0
+        try:
+            for _ in range(k):
+                q.get(True, 0)
+                got += 1
+        except _q.Empty:
+            bad += 1
+        p.join()
+        q.close()
+    return rounds, bad
+
+
+def _real_task(i):
+    return ("ok", i * 10 + 1)
+
+
+def real_pool_grid():
+    """(c) the real pool with real processes, once per grid point, slow consumer"""
+    import time
+    import annet.parallel as par
+    out = []
+    for n in (2, 6, 40):
+        for pool in (2, 8):
+            ids = list(range(n))
+            got = []
+            for r in par.Parallel(_real_task).tune(parallel=pool, max_tasks=3).irun(ids):
+                if len(got) < 3:
+                    time.sleep(0.05)
+                got.append((r.device_id, r.result))
+            out.append({"n": n, "pool": pool, "delivered": len(got),
+                        "ok": sorted(got) == [(i, _real_task(i)) for i in ids]})
+    return out
+
+
+def finish(merged, tier):
+    if tier != "thorough":
+        return
+    rounds, bad = real_flush_before_exit()
+    merged["extra"]["real_mp_flush_before_exit_rounds"] += rounds
+    merged["extra"]["real_mp_flush_before_exit_failures"] += bad
+    if bad:
+        merged["viol"]["model-assumption"] = {"sig": {"kind": "model-assumption-violated", "assumption": "flush-before-exit"},
+                                              "count": bad, "cases": [{"case": {"real": "flush"}, "detail": "%d of %d rounds: item not readable after exitcode was set" % (bad, rounds)}]}
+    grid = real_pool_grid()
+    merged["extra"]["real_pool_grid_points"] += len(grid)
+    merged["notes"].append("real multiprocessing grid (supplementary, non-deciding): %r" % grid)
+    for g in grid:
+        if not g["ok"]:
+            merged["viol"]["real-pool-%d-%d" % (g["n"], g["pool"])] = {
+                "sig": {"kind": "real-pool-lost-results", "api": "irun"}, "count": 1,
+                "cases": [{"case": {"real": g}, "detail": repr(g)}]}
